@@ -114,8 +114,10 @@ def run(prop: str, tier: str) -> int:
     for m in mods:
         choices += [([m], None), (None, [m]), ([m], [m])]
     for _ in range(40 if tier == "quick" else 600):
-        a = rng.sample(mods + ["nosuchmodule"], rng.randint(1, len(mods)))
-        b = rng.sample(mods + ["nosuchmodule"], rng.randint(0, len(mods)))
+        # unknown names, and names that are a prefix / part / extension of a real module name (selection is by exact name)
+        odd = ["nosuchmodule", "net", "base", "hex2", "shell.py", "Hex", "decoders.hex", ""]
+        a = rng.sample(mods + odd, rng.randint(1, len(mods)))
+        b = rng.sample(mods + odd, rng.randint(0, len(mods)))
         choices.append((rng.choice([None, a, a]), rng.choice([None, b, b, []])))
     for inc, exc in choices:
         reg, failed = attempt(get_analyzers, include=inc, exclude=exc)
